@@ -74,6 +74,18 @@ pub fn run_c05(rep: &mut Report) {
             }
         }
     }
+    for w in 0..2048u16 {
+        let want = frame_expect(w);
+        let got = guarded(|| Ps2Decoder::default().add_word(w));
+        rep.evaluations += 1;
+        if got.as_ref().ok() != Some(&want) {
+            rep.violate(
+                format!("C05|add_word(default-constructed)|word=0x{:03X}|want={}|got={:?}", w, frame_res_str(&want), got),
+                format!("Ps2Decoder::default().add_word(0x{:03X}): rule says {}, got {:?}", w, frame_res_str(&want), got),
+                replay_words(&[w], "ps2", &frame_res_str(&want), "other"),
+            );
+        }
+    }
     rep.count("words_accepted", accepted);
     for (k, v) in &rejected {
         rep.count(&format!("words_rejected_{}", k), *v);
@@ -153,11 +165,12 @@ pub fn run_c05(rep: &mut Report) {
             hist.push((format!("after-{}-bits-of-a-{}-frame-then-clear", k, nm), (0..k).map(|i| (f >> i) & 1 == 1).collect(), true));
         }
     }
+    hist.push(("default-constructed".to_string(), Vec::new(), false));
     for (pname, pbits, clear) in hist.iter() {
         for w in 0..2048u16 {
             let want: BitRes = frame_expect(w).map(Some);
             let got = guarded(|| {
-                let mut d = Ps2Decoder::new();
+                let mut d = if pname == "default-constructed" { Ps2Decoder::default() } else { Ps2Decoder::new() };
                 for b in pbits {
                     let _ = d.add_bit(*b);
                 }
@@ -352,6 +365,24 @@ fn leak_after(ops: &[String]) -> Option<String> {
     None
 }
 
+fn leak_after_default() -> Option<String> {
+    for w in 0..2048u16 {
+        let r = guarded(|| {
+            let mut d = Ps2Decoder::default();
+            let mut last = Ok(None);
+            for i in 0..11 {
+                last = d.add_bit((w >> i) & 1 == 1);
+            }
+            last
+        });
+        let want: BitRes = frame_expect(w).map(Some);
+        if r.as_ref().ok() != Some(&want) {
+            return Some(format!("frame {} gives {:?} where the rule gives {}", word_bits(w), r, bitres_str(&want)));
+        }
+    }
+    None
+}
+
 /// Shift the 11 bits of `w` into `d`; check results 1..10 are None and the 11th equals the
 /// whole-word result; check the decoder renders as fresh afterwards.
 fn feed_and_check(d: &mut Ps2Decoder, w: u16, prev: &str, prev_ops: &dyn Fn() -> Vec<String>, fresh_dbg: &str, check_state: bool, out: &mut Out) -> bool {
@@ -504,6 +535,19 @@ pub fn run_c06(rep: &mut Report) {
                         }
                     }
                 }
+            }
+        }
+    }
+    {
+        let dd = format!("{:?}", Ps2Decoder::default());
+        if dd != fresh_dbg {
+            match leak_after_default() {
+                Some(leak) => rep.violate(
+                    format!("C06|default-not-fresh|state={}", dd),
+                    format!("Ps2Decoder::default() is {} instead of {}, and frames shifted into it decode differently: {}", dd, fresh_dbg, leak),
+                    J::Null,
+                ),
+                None => out.structural_only += 1,
             }
         }
     }
